@@ -127,6 +127,14 @@ func c13Body(t *testing.T, s *sim.Scn, o *sim.Outcome) {
 			return
 		}
 	}
+	if j := s.Cfg["jitter"]; j > 0 {
+		// slow goroutines: about one in three yields the processor j times at each of its datastore operations
+		agg.Disk.Yield = sim.SpinJitter(j, uint64(s.Cfg["jsalt"]))
+		if full != nil {
+			full.Disk.Yield = sim.SpinJitter(j, uint64(s.Cfg["jsalt"]))
+		}
+		o.Count("fault:disk-scheduling-jitter", 1)
+	}
 	w.DA.Latency = time.Duration(s.Cfg["dalat"]) * time.Millisecond
 	agg.Exec.Latency = time.Duration(s.Cfg["execlat"]) * time.Millisecond
 	if full != nil {
@@ -410,6 +418,7 @@ func c13Gen(r *rand.Rand, tier string) *sim.Scn {
 	s := &sim.Scn{Cfg: map[string]int64{
 		"bt": []int64{100, 250, 1000, 2000}[r.IntN(4)], "dat": []int64{1000, 3000, 6000}[r.IntN(3)], "run": run, "stop": r.Int64N(run + 1),
 		"lazy": r.Int64N(2), "maxpending": []int64{0, 0, 2, 5}[r.IntN(4)], "full": int64(r.IntN(4) / 1 % 2), "dalat": []int64{0, 5, 50, 300}[r.IntN(4)], "execlat": []int64{0, 0, 20, 400}[r.IntN(4)],
+		"jitter": []int64{0, 0, 0, 0, 200, 1000}[r.IntN(6)], "jsalt": r.Int64N(1 << 30),
 	}}
 	if r.IntN(3) == 0 {
 		s.Cfg["future"] = int64(1000 + r.IntN(120000))
